@@ -329,6 +329,19 @@ def run(ctx):
             det = "; ".join(f"[k, {k!r}] = {short(v, 90)}" for k, v in got.items())
             good = got == {ZERO: oy + (CY - y) * s0, ONE: ox + (x - CX) * s1}
     ctx.ob("C02.centre", f.key, good, where=f, node=f.node, construct=det, message="grid from mask must hold the pixel centres y = oy + ((H-1)/2 - y) s0, x = ox + (x - (W-1)/2) s1 with (H, W) the mask's own shape")
+    # ... one row per unmasked pixel in row-major order: the whole mask is traversed, the row counter starts at 0 and advances once per unmasked pixel, and the
+    # output has exactly (unmasked pixels, 2) entries (a traversal over shape[1] rows, a counter started at 1 or a third column leave the formula above intact)
+    if good:
+        from ..trav import check_slim_counter
+        cnt = acc_name_of(sts[0].idx[0]) if sts[0].idx else None
+        if cnt is None:
+            ctx.ob("C02.centre", f.key + ":rows", False, where=f, node=sts[0].node, construct=repr(sts[0])[:140], message="the rows of the grid from mask must be indexed by a running count of the unmasked pixels")
+        else:
+            check_slim_counter(ctx, "C02.centre", S, cnt, ["M", "mask_2d"], shape=(H, W), must_index=[out[0]], what="grid-row")
+            ref = S.env.get(out[0])
+            init, shp = getattr(ref, "init", None), getattr(ref, "shape", None)
+            ctx.ob("C02.centre", f.key + ":shape", init is not None and init[0] == "zeros" and shp == (Poly.fn("total_pixels_2d_from", S_("M")), Poly.const(2)), where=f, node=f.node,
+                   construct=f"init {init} shape {shp}", message="the grid from mask must have shape (number of unmasked pixels of the same mask, 2)")
     # 1-D analogue
     M1 = Ref("M1", shape=(W,))
     f = p.func(f"{G1U}:grid_1d_slim_via_mask_from")
@@ -436,7 +449,10 @@ def _install_self_support(K: KEval):
 
 _G = "autoarray/geometry/geometry_util.py"
 _M = "autoarray/mask/mask_2d_util.py"
+_G2 = "autoarray/structures/grids/grid_2d_util.py"
 CONTROLS = [
+    Control("grid from mask traverses shape[1] rows", _G2, in_func("grid_2d_slim_via_mask_from", "for y in range(mask_2d.shape[0]):", "for y in range(mask_2d.shape[1]):"), "C02.centre"),
+    Control("grid from mask: row counter starts at 1", _G2, in_func("grid_2d_slim_via_mask_from", "    index = 0\n", "    index = 1\n"), "C02.centre"),
     Control("origin sign flipped in central scaled coordinate", _G, in_func("central_scaled_coordinate_2d_from", "central_pixel_coordinates[1] - (origin[1] / pixel_scales[1])", "central_pixel_coordinates[1] + (origin[1] / pixel_scales[1])"), "C02.centre"),
     Control("rounding offset 0.4", _G, in_func("pixel_coordinates_2d_from", "+ central_pixel_coordinates[0]\n        + 0.5", "+ central_pixel_coordinates[0]\n        + 0.4"), "C02.index"),
     Control("flattened index uses shape[0]", _G, in_func("grid_pixel_indexes_2d_slim_from", "grid_pixels_2d_slim[slim_index, 0] * shape_native[1]", "grid_pixels_2d_slim[slim_index, 0] * shape_native[0]"), "C02.index"),
